@@ -122,6 +122,7 @@ def plan(tier, seed):
     specs = [
         {"name": "table", "work": "table"},
         {"name": "table-shuffled", "work": "table", "shuffle": True},
+        {"name": "table-disk", "work": "table-disk"},
         {"name": "pairs", "work": "pairs", "n": 400 if tier == "quick" else 8000},
         {"name": "disk", "work": "disk", "n": 60 if tier == "quick" else 600},
         {"name": "orders", "work": "orders", "n": 60 if tier == "quick" else 1500},
@@ -141,7 +142,7 @@ def setup(spec, ctx):
     l3 = gen.make_dataset(im3, (-2, 2))
     r3 = gen.make_dataset(im3, (-2, 2))
     _state["mb"] = (gen.metadata_dataset(l3), gen.metadata_dataset(r3))
-    if spec["work"] == "disk":
+    if spec["work"] in ("disk", "table-disk"):
         rng = ctx.rng("disk-images")
         a, b = gen.stereo_pair(rng, 12, 16, "random", max_shift=2)
         d = os.path.join(ctx.workdir, "img")
@@ -207,6 +208,9 @@ def cases(spec, ctx):
                 {"work": "band-asym", "band": None, "left": ["r", "g"], "right": None, "validation": val, "expect": "reject"},
             ]
         yield from cs
+    elif work == "table-disk":
+        for c in table_cases():
+            yield dict(c, entry="disk")
     elif work == "pairs":
         for i in range(spec["n"]):
             yield {"work": "pairs", "i": i, "sub": spec.get("sub", -1)}
@@ -349,6 +353,50 @@ def check_machine(ctx, case, pipe, expect, mb=False):
     return None
 
 
+def check_disk(ctx, case, pipe, expect):
+    """The same table cell through check_configuration.check_conf (rasters on disk, full configuration)."""
+    from pandora import check_configuration
+
+    user = {"input": {"left": {"img": _state["left_tif"], "disp": [-2, 2]}, "right": {"img": _state["right_tif"]}},
+            "pipeline": copy.deepcopy(pipe)}
+    snapshot = copy.deepcopy(user)
+    ctx.gate("disk_entry_point")
+    try:
+        cfg = check_configuration.check_conf(user, pipes.new_machine())
+        accepted, exc = True, None
+    except Exception as e:  # pylint: disable=broad-except
+        accepted, exc = False, e
+    if not eq(user, snapshot):
+        ctx.violation("user-dictionary-mutated", f"user {snapshot} became {user}", case)
+    if expect == "reject":
+        if accepted:
+            ctx.violation("out-of-domain-value-accepted", f"configuration with pipeline {pipe} was accepted (disk entry point)", case,
+                          situation=f"{case.get('param')}")
+        else:
+            ctx.gate("out_of_domain_rejected")
+        return
+    if not accepted:
+        ctx.violation("in-domain-value-rejected", f"pipeline {pipe} rejected (disk entry point): {type(exc).__name__}: {exc}", case,
+                      situation=case.get("param"))
+        return
+    ctx.gate("in_domain_accepted")
+
+    def conv(v):
+        return {"NaN": NAN, "inf": math.inf, "-inf": -math.inf}.get(v, v) if isinstance(v, str) else v
+
+    class _M:
+        pipeline_cfg = {"pipeline": cfg["pipeline"]}
+
+    judge_accepted(ctx, case, pipe, _M, defaults_for(pipe), conv=conv)
+    try:
+        cfg2 = check_configuration.check_conf(copy.deepcopy(cfg), pipes.new_machine())
+        ctx.gate("idempotence_checked")
+        if not eq(cfg2, cfg):
+            ctx.violation("check-not-idempotent", f"first {cfg}, second {cfg2}", case)
+    except Exception as e:  # pylint: disable=broad-except
+        ctx.violation("returned-configuration-rejected", f"{cfg} rejected on second check: {e!r}", case)
+
+
 def rand_pipeline(rng, n_faults):
     """A legal pipeline with drawn in-domain parameters; n_faults of them replaced by out-of-domain ones."""
     kinds = ["matching_cost"]
@@ -393,10 +441,13 @@ def run_case(case, ctx):
         pipe = _base_pipe(kind, mkey, method, {k: v for k, v in p.items() if k != mkey})
         if case["param"] == mkey:
             pipe[kind][mkey] = p[mkey]
-        ctx.case(["one", kind, method, case["param"], repr(p)], nontrivial=case["param"] is not None)
+        ctx.case(["one", case.get("entry", "machine"), kind, method, case["param"], repr(p)], nontrivial=case["param"] is not None)
         ctx.gate("table_rows_evaluated", int(case["param"] is None))
         ctx.count("table_cells_evaluated")
-        check_machine(ctx, case, pipe, case["expect"])
+        if case.get("entry") == "disk":
+            check_disk(ctx, case, pipe, case["expect"])
+        else:
+            check_machine(ctx, case, pipe, case["expect"])
         if ctx.evaluations % 60 == 1:
             ctx.sample({"pipeline": pipe, "expected": case["expect"]})
         return
